@@ -804,8 +804,9 @@ def build_pipeline_inspection(
             suppressed_keys = set(node.get_suppressed_keys())
             deleted_keys.update(suppressed_keys)
 
-        # Validate parameter availability against deleted keys
-        if missing_deleted - set(config_params.keys()):
+        # Validate parameter availability against deleted keys (a configured value
+        # satisfies a parameter, but not the presence of a key this node deletes)
+        if missing_deleted - (set(config_params.keys()) - suppressed_keys):
             node_errors.append(
                 f"Node {index} requires context keys previously deleted: {sorted(missing_deleted)}"
             )
